@@ -277,15 +277,40 @@ def ctx_funcs(repo):
     return [repo.func(REL, f'Relevance.{nm}') for nm in CTX]
 
 
+def assign_pairs(st):
+    """[(target expr, value expr)] of an Assign, element-wise for `a, b = x, y`; [] if not decomposable."""
+    if not isinstance(st, ast.Assign):
+        return []
+    out = []
+    for t in st.targets:
+        if isinstance(t, (ast.Tuple, ast.List)) and isinstance(st.value, (ast.Tuple, ast.List)) and \
+                len(t.elts) == len(st.value.elts) and \
+                not any(isinstance(e, ast.Starred) for e in list(t.elts) + list(st.value.elts)):
+            out += list(zip(t.elts, st.value.elts))
+        elif isinstance(t, (ast.Tuple, ast.List)):
+            return []
+        else:
+            out.append((t, st.value))
+    return out
+
+
+def def_value(d, name):
+    """Value expression bound to access path `name` by definition node d (handles tuple assignment)."""
+    if d.kind != 'stmt':
+        return None
+    vals = [v for t, v in assign_pairs(d.ast) if astx.path(t) == name]
+    return vals[0] if len(vals) == 1 else None
+
+
 def _snapshot_def(rd, at, name):
     """The unique `name = <expr>` definition reaching `at`, as (node, value) or (None, None)."""
     ds = rd.defs(at, name)
     if len(ds) != 1:
         return None, None
     d = next(iter(ds))
-    if d.kind == 'stmt' and isinstance(d.ast, ast.Assign) and len(d.ast.targets) == 1 and \
-            astx.path(d.ast.targets[0]) == name:
-        return d, d.ast.value
+    v = def_value(d, name)
+    if v is not None:
+        return d, v
     return None, None
 
 
@@ -487,17 +512,32 @@ def explore_to_yield(fn, g, env0, at_exit=False):
             for k, node in node_writes(n):
                 writes = writes + (k,)
             if isinstance(n.ast, ast.Assign):
-                for t in n.ast.targets:
-                    p = astx.path(t)
-                    if p is None or not (p in env or p in STATE):
-                        continue
-                    nxt = []
-                    for e1 in envs:
-                        for v in values_all(n.ast.value, e1):
-                            e2 = dict(e1)
-                            e2[p] = v
-                            nxt.append(e2)
-                    envs = nxt
+                pairs = assign_pairs(n.ast)
+                # all right-hand sides are evaluated before any target is bound
+                nxt = []
+                for e1 in envs:
+                    combos = [dict()]
+                    for t, v in pairs:
+                        p = astx.path(t)
+                        if p is None:
+                            continue
+                        tracked = p in e1 or p in STATE or isinstance(t, ast.Name)
+                        if not tracked:
+                            continue
+                        vals = values_all(v, e1)
+                        if vals == [TOP] and not (p in e1 or p in STATE):
+                            continue
+                        combos = [dict(c, **{p: x}) for c in combos for x in vals]
+                    for c in combos:
+                        e2 = dict(e1)
+                        e2.update(c)
+                        nxt.append(e2)
+                if not pairs:
+                    for t in astx.assigned_targets(n.ast):
+                        p = astx.path(t)
+                        if p is not None and (p in env or p in STATE):
+                            nxt = [dict(e1, **{p: TOP}) for e1 in (nxt or envs)]
+                envs = nxt or envs
         for e1 in envs:
             envt1 = tuple(sorted(e1.items(), key=lambda kv: kv[0]))
             for m, lab in g.succ[n]:
@@ -986,8 +1026,8 @@ def arrays(repo, out):
                 for dn in crd.defs(node, e.id):
                     if dn is cg.entry:
                         dirs.add({'fwd_seeds': 'fwd', 'rev_seeds': 'rev'}.get(e.id))
-                    elif dn.kind == 'stmt' and isinstance(dn.ast, ast.Assign) and len(dn.ast.targets) == 1:
-                        dirs.add(seed_dir(dn, dn.ast.value, depth + 1))
+                    elif def_value(dn, e.id) is not None:
+                        dirs.add(seed_dir(dn, def_value(dn, e.id), depth + 1))
                     else:
                         dirs.add(None)
                 if dirs == {'fwd', 'rev'}:
@@ -1422,9 +1462,30 @@ def jacreset(repo, out):
     g = cfgm.build(fn)
     rd = cfgm.ReachingDefs(g)
     ident = act = None
+    # single-assignment local aliases of access paths (relevance = self._relevance)
+    binds = {}
+    for st in astx.walk_stmts(fn.node.body):
+        for t in (astx.assigned_targets(st) if isinstance(st, (ast.Assign, ast.AugAssign, ast.For, ast.With)) else []):
+            if isinstance(t, ast.Name):
+                binds.setdefault(t.id, []).append(st)
+    alias = {}
+    for nm, sts in binds.items():
+        if len(sts) == 1:
+            vs = [v for t, v in assign_pairs(sts[0]) if astx.path(t) == nm]
+            if len(vs) == 1 and astx.path(vs[0]) and astx.path(vs[0]).startswith('self.'):
+                alias[nm] = astx.path(vs[0])
+
+    def rpath(e):
+        p = astx.path(e)
+        if p is None:
+            return None
+        head, _, rest = p.partition('.')
+        if head in alias:
+            return alias[head] + ('.' + rest if rest else '')
+        return p
     for w in astx.walk(fn.node):
         if isinstance(w, ast.Compare) and len(w.ops) == 1:
-            sides = [astx.path(w.left), astx.path(w.comparators[0])]
+            sides = [rpath(w.left), rpath(w.comparators[0])]
             if 'self._relevance' in sides and isinstance(w.ops[0], (ast.Is, ast.IsNot)):
                 ident = w
             if 'self._relevance._active' in sides and isinstance(w.ops[0], (ast.Eq, ast.NotEq, ast.Is, ast.IsNot)):
@@ -2815,6 +2876,17 @@ selftest(
     Mutant('schemes-prefix-shape-delete-empty', COMPONENT, "        # relevance changes.\n", "        # relevance changes.\n        to_remove = [name for name, scheme in self._approx_schemes.items() if not scheme._wrt_meta]\n        for name in to_remove:\n            del self._approx_schemes[name]\n", 'C24.schemes'),
     Mutant('schemes-pop-empty', COMPONENT, "        # relevance changes.\n", "        # relevance changes.\n        for name in [n for n, sch in self._approx_schemes.items() if not sch]:\n            self._approx_schemes.pop(name)\n", 'C24.schemes'),
     Twin('twin-schemes-local-copy', COMPONENT, "        methods = list(self._approx_schemes)\n", "        methods = sorted(self._approx_schemes)\n"),
+    # ---- third robustness round shapes
+    Twin('twin-off-active-local-alias-early-return', REL, "        if self._active or (not active and self._active is None):\n            save = self._active\n            self._active = active\n            try:\n                yield\n            finally:\n                self._active = save\n        else:  # self._active is None, so we can be activated but aren't currently active\n            yield\n", '        current = self._active\n        if not current and (active or current is not None):\n            yield\n            return\n\n        self._active = active\n        try:\n            yield\n        finally:\n            self._active = current\n'),
+    Mutant('off-active-alias-activates-none', REL, "        if self._active or (not active and self._active is None):\n            save = self._active\n            self._active = active\n            try:\n                yield\n            finally:\n                self._active = save\n        else:  # self._active is None, so we can be activated but aren't currently active\n            yield\n", '        current = self._active\n        if not current and current is not None:\n            yield\n            return\n\n        self._active = active\n        try:\n            yield\n        finally:\n            self._active = current\n', 'C24.off'),
+    Mutant('off-active-alias-noop-when-on', REL, "        if self._active or (not active and self._active is None):\n            save = self._active\n            self._active = active\n            try:\n                yield\n            finally:\n                self._active = save\n        else:  # self._active is None, so we can be activated but aren't currently active\n            yield\n", '        current = self._active\n        if (current and not active) or (not current and (active or current is not None)):\n            yield\n            return\n\n        self._active = active\n        try:\n            yield\n        finally:\n            self._active = current\n', 'C24.off'),
+    Mutant('ctx-active-alias-late', REL, "        if self._active or (not active and self._active is None):\n            save = self._active\n            self._active = active\n            try:\n                yield\n            finally:\n                self._active = save\n        else:  # self._active is None, so we can be activated but aren't currently active\n            yield\n", '        current = self._active\n        if not current and (active or current is not None):\n            yield\n            return\n\n        self._active = active\n        current = self._active\n        try:\n            yield\n        finally:\n            self._active = current\n', 'C24.ctx'),
+    Twin('twin-ctx-nl-tuple-snapshot-swapped-branches', REL, '        if not active or self._active is False or name not in self._nonlinear_sets:\n            yield\n        else:\n            save_active = self._active\n            save_relsarray = self._current_rel_sarray\n            self._active = True\n            self._current_rel_sarray = self._nonlinear_sets[name]\n\n            try:\n                yield\n            finally:\n                self._active = save_active\n                self._current_rel_sarray = save_relsarray\n', '        if active and self._active is not False and name in self._nonlinear_sets:\n            save_active, save_relsarray = self._active, self._current_rel_sarray\n            self._active = True\n            self._current_rel_sarray = self._nonlinear_sets[name]\n\n            try:\n                yield\n            finally:\n                self._active = save_active\n                self._current_rel_sarray = save_relsarray\n        else:\n            yield\n'),
+    Mutant('ctx-nl-tuple-snapshot-crossed', REL, '        if not active or self._active is False or name not in self._nonlinear_sets:\n            yield\n        else:\n            save_active = self._active\n            save_relsarray = self._current_rel_sarray\n            self._active = True\n            self._current_rel_sarray = self._nonlinear_sets[name]\n\n            try:\n                yield\n            finally:\n                self._active = save_active\n                self._current_rel_sarray = save_relsarray\n', '        if active and self._active is not False and name in self._nonlinear_sets:\n            save_relsarray, save_active = self._active, self._current_rel_sarray\n            self._active = True\n            self._current_rel_sarray = self._nonlinear_sets[name]\n\n            try:\n                yield\n            finally:\n                self._active = save_active\n                self._current_rel_sarray = save_relsarray\n        else:\n            yield\n', 'C24.ctx'),
+    Mutant('off-nl-positive-guard-drops-disabled-test', REL, '        if not active or self._active is False or name not in self._nonlinear_sets:\n            yield\n        else:\n            save_active = self._active\n            save_relsarray = self._current_rel_sarray\n            self._active = True\n            self._current_rel_sarray = self._nonlinear_sets[name]\n\n            try:\n                yield\n            finally:\n                self._active = save_active\n                self._current_rel_sarray = save_relsarray\n', '        if active and name in self._nonlinear_sets:\n            save_active, save_relsarray = self._active, self._current_rel_sarray\n            self._active = True\n            self._current_rel_sarray = self._nonlinear_sets[name]\n\n            try:\n                yield\n            finally:\n                self._active = save_active\n                self._current_rel_sarray = save_relsarray\n        else:\n            yield\n', 'C24.off'),
+    Twin('twin-jacreset-changed-alias-early-return', SYSTEM, '        old_rel, active = self._old_relevance\n        if (old_rel is not self._relevance) or (active != self._relevance._active):\n            self._old_relevance = (self._relevance, self._relevance._active)\n            return True\n        return False\n', '        relevance = self._relevance\n        old_rel, old_active = self._old_relevance\n        if old_rel is relevance and old_active == relevance._active:\n            return False\n        snapshot = (relevance, relevance._active)\n        self._old_relevance = snapshot\n        return True\n'),
+    Mutant('jacreset-changed-alias-ignores-active', SYSTEM, '        old_rel, active = self._old_relevance\n        if (old_rel is not self._relevance) or (active != self._relevance._active):\n            self._old_relevance = (self._relevance, self._relevance._active)\n            return True\n        return False\n', '        relevance = self._relevance\n        old_rel, old_active = self._old_relevance\n        if old_rel is relevance:\n            return False\n        snapshot = (relevance, relevance._active)\n        self._old_relevance = snapshot\n        return True\n', 'C24.jacreset'),
+    Mutant('jacreset-changed-alias-or', SYSTEM, '        old_rel, active = self._old_relevance\n        if (old_rel is not self._relevance) or (active != self._relevance._active):\n            self._old_relevance = (self._relevance, self._relevance._active)\n            return True\n        return False\n', '        relevance = self._relevance\n        old_rel, old_active = self._old_relevance\n        if old_rel is relevance or old_active == relevance._active:\n            return False\n        snapshot = (relevance, relevance._active)\n        self._old_relevance = snapshot\n        return True\n', 'C24.jacreset'),
     Twin('twin-gate-local-flag', GROUP, "            with relevance.active(self._linear_solver.use_relevance()):\n                subs = list(",
          "            prune = self._linear_solver.use_relevance()\n            with relevance.active(prune):\n                subs = list("),
 )
